@@ -1,7 +1,7 @@
 (* C16 — Compiled bytecode behaves like the tree-walking evaluator.
    Property theorems only; proofs are [exact <lemma of CompileProofs>]. *)
 From Coq Require Import ZArith NArith List String.
-From EvyV Require Import Base Bytecode SymTab Vm Compile CompileProofs CompileWfProofs.
+From EvyV Require Import Base Bytecode SymTab Vm Compile CompileProofs CompileWfProofs CompileStmtProofs.
 Import ListNotations.
 Open Scope list_scope.
 
@@ -78,6 +78,27 @@ Theorem C16_compile_correct_partial : forall e : expr, efrag e = true ->
 Proof. exact compile_expr_correct. Qed.
 Print Assumptions C16_compile_correct_partial.
 
+(* ---------- straight-line programs are compiled correctly ---------- *)
+(* For every top-level program of declarations `x := e` and assignments
+   `x = e` of global variables with e in the expression fragment: if the
+   compiler succeeds and the direct big-step semantics exec_slist of the
+   statements is defined (no division by zero, no dynamic type contradicting
+   the static annotation), then the VM model started by NewVM on the compiled
+   program runs to the end of the code, halts there with an empty operand
+   stack, and every global slot the compiler assigned to a variable holds the
+   value the semantics gives that variable.  Guard: the deepest expression
+   fits the VM stack. *)
+Theorem C16_compile_correct_straightline : forall (p : slist) (st : cstate) (env' : genv),
+  sfrag p = true -> compile p = COk st -> exec_slist (fun _ => None) p = Some env' ->
+  (prog_depth p <= Gen.Opcodes.StackSize)%N ->
+  let prog := program_of (bytecode_of st) in
+  exists s, reaches prog (vm_init prog) s /\
+            vm_step prog s = Halted s /\ ostack s = [] /\
+            forall n y v, st_resolve n (csym st) = Some y -> env' n = Some v ->
+                          nth_error (globals s) (N.to_nat (sidx y)) = Some v.
+Proof. exact compile_correct_straightline. Qed.
+Print Assumptions C16_compile_correct_straightline.
+
 (* ---------- the compiler's output is well formed (straight-line fragment) ---------- *)
 (* For every top-level program made of declarations `x := e` and assignments
    `x = e` with e in the expression fragment: IF THE COMPILER SUCCEEDS, what it
@@ -117,6 +138,16 @@ Qed.
 Print Assumptions C16_compile_wf_large_before_fix.
 
 (* ---------- non-vacuity ---------- *)
+Example C16_ex_straightline_semantics :
+  let p := SCons (SDecl (s_ "x") (ENum (float_of_Z 7)))
+          (SCons (SDecl (s_ "b") (EBin BLt TNum TNum (EBin BPlus TNum TNum (EVar (s_ "x")) (ENum (float_of_Z 2))) (ENum (float_of_Z 30))))
+          (SCons (SAssign (EVar (s_ "x")) (EUn UMinus (EVar (s_ "x")))) SNil)) in
+  match exec_slist (fun _ => None) p with
+  | Some env => env (s_ "x") = Some (VNum (float_of_Z (-7))) /\ env (s_ "b") = Some (VBool true)
+  | None => False
+  end /\ (prog_depth p <= Gen.Opcodes.StackSize)%N.
+Proof. vm_compute. repeat split; try reflexivity. discriminate. Qed.
+
 Example C16_ex_wf_fragment :
   let p := SCons (SDecl (s_ "x") (ENum (float_of_Z 7)))
           (SCons (SDecl (s_ "b") (EBin BLt TNum TNum (EBin BPlus TNum TNum (EVar (s_ "x")) (ENum (float_of_Z 2))) (ENum (float_of_Z 30))))
